@@ -156,11 +156,22 @@ Definition mgr_eqb (a b : mgr) : bool :=
   list_eqb ss_eqb (tbl (g_cm a)) (tbl (g_cm b)) && list_eqb sn_eqb (g_fwd a) (g_fwd b) && list_eqb handler_eqb (g_hs a) (g_hs b)
   && list_eqb waiter_eqb (g_ws a) (g_ws b) && list_eqb String.eqb (g_fgo a) (g_fgo b) && list_eqb String.eqb (g_pend a) (g_pend b).
 
+(* the order inside the goroutine lists, the handler list and the maps is not observable (steps pick any element): states are
+   compared, and kept, in a canonical order, so that the k! orders in which k goroutines may have been started are one state *)
+Fixpoint ins_by {A} (key : A -> string) (x : A) (l : list A) : list A :=
+  match l with [] => [x] | y :: r => if String.leb (key x) (key y) then x :: y :: r else y :: ins_by key x r end.
+Definition sort_by {A} (key : A -> string) (l : list A) : list A := fold_right (ins_by key) [] l.
+Definition canon (g : mgr) : mgr :=
+  {| g_cm := {| avg := avg (g_cm g); md := md (g_cm g); tbl := sort_by fst (tbl (g_cm g)) |};
+     g_fwd := sort_by fst (g_fwd g); g_hs := sort_by h_key (g_hs g); g_ws := sort_by w_key (g_ws g);
+     g_fgo := sort_by (fun x => x) (g_fgo g); g_pend := sort_by (fun x => x) (g_pend g) |}.
+
 Fixpoint add_new (seen : list mgr) (l : list mgr) : list mgr * list mgr :=  (* (seen', the new ones) *)
   match l with
   | [] => (seen, [])
-  | g :: r => if existsb (mgr_eqb g) seen then add_new seen r
-              else let '(s', n') := add_new (g :: seen) r in (s', g :: n')
+  | g0 :: r => let g := canon g0 in
+               if existsb (mgr_eqb g) seen then add_new seen r
+               else let '(s', n') := add_new (g :: seen) r in (s', g :: n')
   end.
 
 Fixpoint closure_aux (f : cfg) (fuel : nat) (seen frontier : list mgr) : list mgr :=
